@@ -78,3 +78,72 @@ pub fn state_read(v: &Value) -> Value {
     let _ = std::fs::remove_dir_all(&dir);
     json!({"failed": failed})
 }
+
+/// K1: the journal step of a post-command hook on a journal that cannot be read back.
+/// {pre: "dir" | "non_utf8" | null}. Ends by returning (prints JSON), by a panic (exit 101, absorbed by the
+/// guard around the hook bodies in the real binary) — or, if the code ends the process itself, by that status.
+pub fn post_hook_journal(v: &Value) -> Value {
+    let dir = std::env::temp_dir().join(format!("vreplay-c07j-{}", std::process::id()));
+    let _ = std::fs::remove_dir_all(&dir);
+    std::fs::create_dir_all(&dir).unwrap();
+    let st = std::process::Command::new("git").args(["init", "-q", "."]).current_dir(&dir).output().unwrap();
+    assert!(st.status.success());
+    let mut repo = git_ai::git::find_repository_in_path(dir.to_str().unwrap()).expect("repo");
+    let journal = repo.storage.rewrite_log.clone();
+    match v["pre"].as_str() {
+        Some("dir") => {
+            let _ = std::fs::remove_file(&journal);
+            std::fs::create_dir_all(journal.join("x")).unwrap();
+        }
+        Some("non_utf8") => std::fs::write(&journal, [0xff, 0xfe, b'\n']).unwrap(),
+        _ => {}
+    }
+    repo.handle_rewrite_log_event(event(7), "A <a@b>".to_string(), true, false);
+    let _ = std::fs::remove_dir_all(&dir);
+    json!({"returned": true})
+}
+
+/// K2: commit_pre_command_hook on a working log whose checkpoints cannot be read (the pre-commit step fails)
+/// {argv: [...], pre_commit: ok|fails}
+pub fn pre_commit_refusal(v: &Value) -> Value {
+    let dir = std::env::temp_dir().join(format!("vreplay-c07p-{}", std::process::id()));
+    let _ = std::fs::remove_dir_all(&dir);
+    std::fs::create_dir_all(&dir).unwrap();
+    let git = |args: &[&str]| {
+        let o = std::process::Command::new("git")
+            .args(args)
+            .current_dir(&dir)
+            .env("GIT_AUTHOR_NAME", "v")
+            .env("GIT_AUTHOR_EMAIL", "v@v")
+            .env("GIT_COMMITTER_NAME", "v")
+            .env("GIT_COMMITTER_EMAIL", "v@v")
+            .output()
+            .unwrap();
+        assert!(o.status.success(), "git {:?}: {}", args, String::from_utf8_lossy(&o.stderr));
+        String::from_utf8_lossy(&o.stdout).trim().to_string()
+    };
+    git(&["init", "-q", "."]);
+    std::fs::write(dir.join("f"), "one\n").unwrap();
+    git(&["add", "-A"]);
+    git(&["commit", "-q", "-m", "c1"]);
+    let head = git(&["rev-parse", "HEAD"]);
+    std::fs::write(dir.join("f"), "one\ntwo\n").unwrap();
+    git(&["add", "-A"]);
+    let mut repo = git_ai::git::find_repository_in_path(dir.to_str().unwrap()).expect("repo");
+    if v["pre_commit"].as_str() == Some("fails") {
+        // pending AI attribution (so the pre-commit step does not take its early exit) and an unreadable log
+        let wl = repo.storage.working_log_for_base_commit(&head);
+        let mut files = std::collections::HashMap::new();
+        files.insert(
+            "f".to_string(),
+            vec![git_ai::authorship::attribution_tracker::LineAttribution::new(2, 2, "s1".into(), None)],
+        );
+        wl.write_initial_attributions(files, std::collections::HashMap::new()).unwrap();
+        std::fs::write(wl.dir.join("checkpoints.jsonl"), "{\"kind\":\"AiAgent\",\"diff\":\"d\",\"auth").unwrap();
+    }
+    let argv: Vec<String> = v["argv"].as_array().unwrap().iter().map(|a| a.as_str().unwrap().to_string()).collect();
+    let parsed = git_ai::git::cli_parser::parse_git_cli_args(&argv);
+    let let_run = git_ai::commands::hooks::commit_hooks::commit_pre_command_hook(&parsed, &mut repo);
+    let _ = std::fs::remove_dir_all(&dir);
+    json!({"let_git_run": true, "hook_result": let_run})
+}
